@@ -26,8 +26,21 @@ def unit(job, variant, pi, seed, length, fork_every):
                                    "plan": [command_text(c) for c in done], **kw})
 
     for i, c in enumerate(cmds):
-        eng.exec(c)
+        # the property's own observation point: the validity view before a USE/CAST and the events of that USE
+        listed = None
+        if getattr(c, "command", None) in ("USE", "CAST"):
+            try:
+                listed = {v.name: v.valid for v in eng.get_current_viewer()("validity")}.get(c.name)
+            except Exception:
+                listed = None
+        log = eng.exec(c)
         done.append(c)
+        if listed:
+            out["engine_level_uses"] = out.get("engine_level_uses", 0) + 1
+            own = [e for pl in log.playlogs for e in pl.events if e["name"] == c.name and e["method"] == "use"]
+            if any(e["tag"] == Tag.REJECT for e in own) or not own:
+                fail("valid-but-rejected", skill=c.name, via=f"engine {c.command}",
+                     events=[e for pl in log.playlogs for e in pl.events if e["name"] == c.name][:4])
         views, err = complib.eval_views(eng)
         out["states"] += 1
         if err is not None:
